@@ -1,57 +1,29 @@
-(* C14 -- facts about the concrete tables of Gen/GenCodegen.v: the witnesses that refute the full-strength statements. *)
+(* C14 -- facts about the concrete tables of Gen/GenCodegen.v: witnesses for the statements that are still false of the
+   formatter, and the former counterexamples (repaired in /repo) as regression examples. *)
 From Coq Require Import List NArith ZArith Bool Arith Lia.
 From PV Require Import Lib.ListX Model.FmtLit Model.FmtPratt Model.Fmt Model.FmtInst Proofs.FmtPrattProofs Proofs.FmtProofs Proofs.FmtLitProofs.
 Import ListNotations.
 Local Open Scope N_scope.
 
 Definition idn (c : N) : expr := EAtom (AIdent [[c]]).
-(* a + ((b ** c)..d)   (BinOp indices: Pow = 4, Add = 5) *)
+(* a + ((b ** c)..d)   (BinOp indices: Pow = 4, Add = 5): before commit a318687 it was printed as `a + b ** c..d` *)
 Definition leak_witness : expr := EBin 5 (idn 97) (ERng (EBin 4 (idn 98) (idn 99)) (idn 100)).
-(* what its printed form `a + b ** c..d` parses to:  a + (b ** (c..d)) *)
-Definition leak_reparse : expr := EBin 5 (idn 97) (EBin 4 (idn 98) (ERng (idn 99) (idn 100))).
 
-Lemma leak_witness_parse : parse_prql 40 (fmt_toks leak_witness) = Some leak_reparse.
+Lemma leak_witness_parse : parse_prql 40 (fmt_toks leak_witness) = Some leak_witness.
 Proof. vm_compute. reflexivity. Qed.
-
-Lemma expr_roundtrip_refuted :
-  exists e, wf e = true /\ ops_ok nbin nun e = true /\ is_named e = false /\
-            forall f, parse_prql f (fmt_toks e) <> Some e.
-Proof.
-  exists leak_witness. repeat split; try (vm_compute; reflexivity).
-  intros f H. unfold parse_prql in *.
-  pose proof (parse_mono P_prql f (f + 40) _ _ ltac:(lia) H) as H1.
-  pose proof (parse_mono P_prql 40 (f + 40) _ _ ltac:(lia) leak_witness_parse) as H2.
-  rewrite H2 in H1. discriminate H1.
-Qed.
-
-Lemma idempotent_refuted :
-  exists e f e', wf e = true /\ ops_ok nbin nun e = true /\ parse_prql f (fmt_toks e) = Some e' /\ fmt_toks e' <> fmt_toks e.
-Proof.
-  exists leak_witness, 40%nat, leak_reparse. repeat split; try (vm_compute; reflexivity).
-  vm_compute. discriminate.
-Qed.
 
 (* ---- identifiers: ASCII-only character classes (enough to exhibit the witnesses, which are ASCII) *)
 Definition ascii_alpha_f (c : N) : bool := in_ranges letters c.
 Definition ascii_alnum_f (c : N) : bool := in_ranges alnum_ascii c.
 
-Definition s_import : str := [105; 109; 112; 111; 114; 116].
-
+(* write_ident_part still leaves the wildcard bare: alias `*` is printed as * *)
 Lemma write_ident_refuted :
   exists s, contains c_backtick s = false /\
     lex_word ascii_alpha_f ascii_alnum_f I_prql (write_ident_part I_prql s ++ [32]) <> Some (WIdent s, [32]).
-Proof. exists s_import. split; [reflexivity|]. vm_compute. discriminate. Qed.
-
-Lemma display_ident_refuted :
-  exists s, contains c_backtick s = false /\
-    lex_word ascii_alpha_f ascii_alnum_f I_prql (display_ident_part I_prql s ++ [32]) <> Some (WIdent s, [32]).
-Proof. exists w_true. split; [reflexivity|]. vm_compute. discriminate. Qed.
+Proof. exists [42]. split; [reflexivity|]. vm_compute. discriminate. Qed.
 
 Lemma float_refuted : exists f, flt_wf f = true /\ lex_number (fmt_float f) <> Some (NFloat f, []).
 Proof. exists (FFin 1 0). split; [reflexivity|]. vm_compute. discriminate. Qed.
-
-Lemma string_refuted : exists s, forallb valid_scalar s = true /\ lex_string (fmt_string s) <> Some (s, []).
-Proof. exists [c_squote; c_dquote]. exact string_roundtrip_refuted_witness. Qed.
 
 (* the hypotheses on the Unicode classes are satisfiable (by the ASCII-only classes) *)
 Lemma ascii_classes_ok :
